@@ -179,11 +179,13 @@ func richSubtitles(r *fw.Rand) *astisub.Subtitles {
 		mnc := 38
 		md := &astisub.Metadata{Title: fw.Pick(r, []string{"T", "T", "A title that is a good deal longer than thirty-two bytes", "Épisode n° 12 «été» — l'intégrale restaurée"}), Language: fw.Pick(r, []string{"", "english", "french"}), TTMLCopyright: "C", Comments: []string{"c1"}, SSAScriptType: fw.Pick(r, []string{"v4.00", "v4.00+", ""}),
 			Framerate: fw.Pick(r, []int{0, 25, 30}), STLDisplayStandardCode: fw.Pick(r, []string{"", "0", "1"}), STLMaximumNumberOfDisplayableCharactersInAnyTextRow: &mnc}
-		switch r.Intn(4) {
+		switch r.Intn(5) {
 		case 0:
 			md.STLCreationDate, md.STLRevisionDate = &cd, &cd
 		case 1:
 			md.STLCreationDate = &cd
+		case 3:
+			md.STLRevisionDate = &cd // only the revision date is supplied
 		case 2:
 			// dates supplied, one of them the zero date (what the STL reader returns for a blank date field)
 			md.STLCreationDate, md.STLRevisionDate = &cd, &time.Time{}
